@@ -128,17 +128,20 @@ def compare(pred, act, check_value=True):
     return None  # unspec / fuel: nothing to compare
 
 
-def variants(ast, rng, n_layouts, contexts):
-    """Render one program in several contexts and layouts. Returns list of (variant_name, source)."""
+def variants(ast, rng, n_layouts, contexts, with_lines=False):
+    """Render one program in several contexts and layouts. Returns list of (variant_name, source)
+    (or (variant_name, source, continuation line set) with with_lines)."""
     out = []
     for ctx in contexts:
         tree = ast
         if ctx.startswith("fn"):
             tree = kast.wrap_in_function(ast, extra_locals=int(ctx[2:] or 0))
-        out.append((ctx + "/canon", kast.render(tree)))
+        src, cont = kast.render_with_lines(tree)
+        out.append((ctx + "/canon", src, cont) if with_lines else (ctx + "/canon", src))
         for li in range(n_layouts):
             lay = kast.Layout(random.Random(rng.getrandbits(32)), comments=(li % 2 == 1))
-            out.append(("%s/l%d" % (ctx, li), kast.render(tree, lay)))
+            src, cont = kast.render_with_lines(tree, lay)
+            out.append(("%s/l%d" % (ctx, li), src, cont) if with_lines else ("%s/l%d" % (ctx, li), src))
     return out
 
 
